@@ -281,3 +281,12 @@ Proof.
   apply (dns_bad_safe fr e); [|exact Bf].
   unfold bytes_ok in *. rewrite Forall_forall in *. intros x I. apply BO, Sf, I.
 Qed.
+
+(** UDP: every datagram made of bytes is either delivered or dropped as malformed; the "unexpected
+    decoding error" branch is never taken *)
+Lemma udp_never_unexpected msg : bytes_ok msg -> (exists m, udp_receive msg = UDelivered m) \/ udp_receive msg = UDropped.
+Proof.
+  intros BO. unfold udp_receive. pose proof (dec_message_safe msg BO) as S.
+  destruct (dec_message msg) as [m|e|]; [left; eauto| |destruct S].
+  destruct e; try destruct S; right; reflexivity.
+Qed.
